@@ -707,6 +707,8 @@ class Engine:
                 return v
             kk = self.kind(o['t'])
             if kk == 'string':
+                if 'vb' in o:
+                    return bytes(o['vb'])
                 return v.encode('latin1') if isinstance(v, str) else v
             if kk == 'float':
                 return float(eval(v)) if isinstance(v, str) else v
@@ -962,6 +964,11 @@ class Engine:
         if tok == '-':
             return si(a - b, signed)
         if tok == '*':
+            # x * ite(c, k1, k2) with numerals k1, k2 (e.g. a sign multiplier): distribute, so that no 64x64
+            # symbolic multiplication reaches the solver
+            for u, w in ((a, b), (b, a)):
+                if z3.is_app(w) and w.decl().kind() == z3.Z3_OP_ITE and z3.is_bv_value(w.arg(1)) and z3.is_bv_value(w.arg(2)):
+                    return si(z3.If(w.arg(0), u * w.arg(1), u * w.arg(2)), signed)
             return si(a * b, signed)
         if tok == '==':
             return sb(a == b)
@@ -1783,6 +1790,107 @@ def i_nondet_bytes_len(e, st, a, i):
     return SliceV(obj, 0, n, n, False)
 
 
+# ---- math/big.Int: contract model (neg: Bool, mag: BV64) valid for magnitudes < 2^64 (every call site of the repo and
+# of onos-api's typed values feeds at most 8 bytes); the struct's `abs` field holds the magnitude term
+def _big_get(e, st, p):
+    v = e.load(st, p, None)
+    neg, mag = v[0], v[1]
+    if isinstance(mag, SliceV):
+        mag = 0
+    return neg, mag
+
+
+def _big_set(e, st, p, neg, mag):
+    e.store(st, p, (neg, mag), None)
+    return p
+
+
+def i_big_newint(e, st, a, i):
+    x = a[0]
+    pt = e.T(e.under(i['type'])[0])
+    obj = e.new_obj(st, e.zero(pt['elem']), pt['elem'])
+    p = Ptr(((True, obj, ()),))
+    return i_big_setint64(e, st, [p, x], i)
+
+
+def i_big_setint64(e, st, a, i):
+    p, x = a
+    if not is_sym(x):
+        return _big_set(e, st, p, x < 0, abs(x))
+    neg = sb(x < 0)
+    return _big_set(e, st, p, neg, si(z3.If(x < 0, -x, x), signed=False))
+
+
+def i_big_setuint64(e, st, a, i):
+    return _big_set(e, st, a[0], False, a[1])
+
+
+def i_big_setbytes(e, st, a, i):
+    p, buf = a
+    if buf.obj is None:
+        return _big_set(e, st, p, False, 0)
+    cells = st.heap[buf.obj][buf.off:buf.off + buf.cap]
+    if len(cells) > 8:
+        e.obligations.append(('bound:big.Int-magnitude<2^64', sb(And(st.pc, z3.UGT(to_bv(buf.len, 64), 8)) if is_sym(buf.len) else And(st.pc, buf.len > 8))))
+        cells = cells[:8] if not is_sym(buf.len) and buf.len <= 8 else cells
+    mag = bvc(0, 64)
+    for j, c in enumerate(cells[:16]):
+        nxt = (mag << 8) | z3.ZeroExt(56, to_bv(c, 8))
+        g = (j < buf.len) if not is_sym(buf.len) else sb(z3.UGT(to_bv(buf.len, 64), j))
+        mag = nxt if g is True else (mag if g is False else z3.If(g, nxt, mag))
+    return _big_set(e, st, p, False, si(mag, signed=False))
+
+
+def i_big_bytes(e, st, a, i):
+    neg, mag = _big_get(e, st, a[0])
+    m = to_bv(mag, 64)
+    if not is_sym(mag):
+        b = mag.to_bytes((mag.bit_length() + 7) // 8, 'big')
+        obj = e.new_obj(st, tuple(b), ('arr', 'uint8'))
+        return SliceV(obj, 0, len(b), len(b), False)
+    # number of significant bytes
+    n = bvc(0, 64)
+    for k in range(1, 9):
+        n = z3.If(z3.UGE(m, bvc(1 << (8 * (k - 1)), 64)), bvc(k, 64), n)
+    n = si(n, signed=False)
+    cells = []
+    for pos in range(8):
+        # byte at position pos of the minimal big-endian rendering: (m >> 8*(n-1-pos)) & 0xff
+        v = bvc(0, 8)
+        for k in range(pos + 1, 9):
+            v = z3.If(n == k, z3.Extract(7, 0, z3.LShR(m, bvc(8 * (k - 1 - pos), 64))), v)
+        cells.append(si(v, signed=False))
+    obj = e.new_obj(st, tuple(cells), ('arr', 'uint8'))
+    return SliceV(obj, 0, n, 8, False)
+
+
+def i_big_neg(e, st, a, i):
+    z, x = a
+    neg, mag = _big_get(e, st, x)
+    nz = (mag != 0) if not is_sym(mag) else sb(to_bv(mag, 64) != 0)
+    return _big_set(e, st, z, sb(And(Not(neg), nz)), mag)
+
+
+def i_big_sign(e, st, a, i):
+    neg, mag = _big_get(e, st, a[0])
+    if not is_sym(mag) and not is_sym(neg):
+        return 0 if mag == 0 else (-1 if neg else 1)
+    return si(z3.If(to_bv(mag, 64) == 0, bvc(0, 64), z3.If(zbool(neg), bvc(-1, 64), bvc(1, 64))))
+
+
+def i_big_int64(e, st, a, i):
+    neg, mag = _big_get(e, st, a[0])
+    if not is_sym(mag) and not is_sym(neg):
+        return wrap(-mag if neg else mag, 64, True)
+    m = to_bv(mag, 64)
+    return si(z3.If(zbool(neg), -m, m))
+
+
+def i_big_uint64(e, st, a, i):
+    neg, mag = _big_get(e, st, a[0])
+    return mag
+
+
 def i_rand_intn(e, st, a, i):
     """math/rand.Intn(n): a fresh symbolic r with 0 <= r < n (panics for n <= 0 like the original)"""
     n = a[0]
@@ -2226,6 +2334,15 @@ def i_re_matchstring(e, st, a, i):
 INTRINSICS = {
     'sort.Slice': i_sort_slice,
     'math/rand.Intn': i_rand_intn,
+    'math/big.NewInt': i_big_newint,
+    '(*math/big.Int).SetInt64': i_big_setint64,
+    '(*math/big.Int).SetUint64': i_big_setuint64,
+    '(*math/big.Int).SetBytes': i_big_setbytes,
+    '(*math/big.Int).Bytes': i_big_bytes,
+    '(*math/big.Int).Neg': i_big_neg,
+    '(*math/big.Int).Sign': i_big_sign,
+    '(*math/big.Int).Int64': i_big_int64,
+    '(*math/big.Int).Uint64': i_big_uint64,
     '(*regexp.Regexp).FindAllStringSubmatch': i_re_findall,
     '(*regexp.Regexp).FindString': i_re_findstring,
     'regexp.MustCompile': i_re_mustcompile,
